@@ -1,6 +1,6 @@
 import MythVerif.Proofs.WsQueueSeq
 import MythVerif.Proofs.WsQueueCor
-import MythVerif.Proofs.WsQueueTsoAcct
+import MythVerif.Proofs.WsQueueTsoBndAll
 import MythVerif.Generated.Consts
 /-! # C02 — runnable threads are never lost or duplicated by the work-stealing queues
 
@@ -177,40 +177,188 @@ end MythVerif.Wsq
 namespace MythVerif.WsqTso
 open MythVerif.Wsq (Elem Pid Holder)
 
-/- Full statement aimed at (DESIGN section 4, C02):
+/- Statement (DESIGN section 4, C02):
 
      theorem C02_no_loss_no_dup_tso : for every reachable state of the x86-TSO machine running ALL
-       queue operations (push with re-centring, pop, put, clear, take, wsapi take with decision
-       callback, trypass, peek, wsapi peek) with the fences of the source:
+       queue operations (push with re-centring, pop, put with re-centring, clear, take, wsapi take
+       with decision callback, trypass, peek, wsapi peek) with the fences of the source:
        retd.Nodup ∧ multiset(A) + in-flight + returned = multiset(inserted).
 
    Proved below, for every capacity, any number of other participants and every interleaving of
    program steps and store-buffer drains: the machine of `Model/WsQueueTso.lean`, i.e.
-     * owner `push` (without re-centring: a push at `top == size` stops), `pop` – fast path, locked
-       slow path, reset path – and `put` (base-side insertion under the lock, without re-centring:
-       a put at `base == 0` stops, still holding the lock);
+     * owner `push` WITH re-centring (at `top == size`: lock, `abort()` iff `base == 0`, else
+       `memmove` down by `(-base-1)/2`, `top += offset`, `base += offset`, unlock, then the push
+       proper), `pop` – fast path, locked slow path including the invalidation of the steal cache's
+       pointer word (`if (top <= base) wc->ptr = NULL`), reset path – and `put` WITH re-centring (at
+       `base == 0`: `abort()` iff `top == size`, else `memmove` up by `(size-top+1)/2`,
+       `top += offset`, `base += offset`, then the insertion proper in the same locked section,
+       no fence in between), and `clear` (lock, `myth_assert(top == base)` – a failure is the
+       terminal program counter `assertFail` –, `base = size/2`, `top = base`, unlock);
      * any number of other participants, each running any sequence of `myth_queue_take`,
        `myth_queue_trypass` (trylock – a failure returns 0; `base == 0` returns 0; slot store,
-       `base--`, unlock) and `myth_queue_peek` (lock-free loads of `base`, `top`, one slot; nothing
-       is removed and the value read is only a hint to the caller – nothing is claimed about it).
+       `base--`, unlock), `myth_queue_peek` (lock-free loads of `base`, `top`, one slot; nothing
+       is removed and the value read is only a hint to the caller – nothing is claimed about it),
+       `myth_wsapi_runqueue_take` (trylock – a failure returns NULL; `base++`, fence, comparison,
+       slot read, decision callback as a separate label with either verdict: accept = linearization
+       point, then `wc->ptr = NULL`, unlock; decline = roll-back of `base`, unlock) and the caching
+       `myth_wsapi_runqueue_peek` (cache test, trylock – a failure restarts; second cache test,
+       `base++`, fence, comparison, slot read, `wc->ptr = th`, roll-back, unlock, return of the
+       cached word as a hint).  Of the steal cache only the pointer word is modelled, as under SC.
    put and trypass linearize when their `base` store DRAINS (the slot store precedes it in the same
    FIFO buffer), for trypass possibly while the owner is inside a lock-free push or pop.
-   Not covered: the wsapi variants (take with decision callback, wsapi peek), the steal cache,
-   re-centring in push and put, clear.  Modelling simplification (DESIGN A.3): the releasing store
-   of unlock is performed on memory right after its fence. -/
+   A re-centring `memmove` is ONE buffer entry (`Sto.shift`); the header of the model file says why
+   that loses nothing: slots are loaded only under the lock (excluded until the owner's unlock fence
+   has drained everything), by the owner (store forwarding) or by peek (value not recorded), and
+   the lock-free loads of `top` / `base` (quick checks, peek) may see the half-updated pair – their
+   values are unconstrained in the invariant (`exRcHint` below exhibits such a read).  The two
+   `abort()`s (`stuck`, `stuckL`) happen only on a full deque.
+   That is every operation of `myth_wsqueue_func.h` plus the two queue functions of
+   `myth_if_native.c`; `myth_queue_pass` is the caller's retry loop around trypass (labels
+   `tPass` in sequence), `myth_queue_init` is `init`.  Not modelled: of the steal cache anything but
+   its pointer word (`seq`, `size`, `data`: the advisory copy of the hint), the signal-safety flag
+   `op_flag` and the optional `USE_LOCK*` / `USE_THREAD_CS` mutexes (compiled out in the verified
+   configuration, `C02_config_matches`).  Modelling simplifications: the releasing store of unlock
+   is performed on memory right after its fence (DESIGN A.3); a re-centring `memmove` is one buffer
+   entry (justified in the header of the model file).  Granularity: one program counter per shared
+   access, with the mergers of the SC model (a lock holder's `b = q->base; q->base = b±1`, the
+   owner's `top = q->top - 1; q->top = top`, `q->base += offset; t = q->top`); pop's test
+   `if (top <= base)` compares two locals – the model re-reads the owner's view of `base` instead,
+   which is the value loaded at `po4` (the owner holds the lock and has no `base` store pending).
+   The per-program-counter lemma files `Proofs/WsQueueTsoFl*.lean` (drains) and
+   `Proofs/WsQueueTsoBnd[OT]*.lean` (bounds) are instances of one template each, generated by script. -/
 
-/-- **No loss, no duplication under x86-TSO store buffering (partial: push / pop / put / take /
-trypass / peek).**
+/-- **No loss, no duplication under x86-TSO store buffering (all queue operations).**
 In every reachable state of the store-buffer machine with the fences of the source, for every
-capacity and any number of other participants (each running take, trypass or peek, in any order):
+capacity, the owner running any sequence of push / pop / put / clear and any number of other
+participants (each running take, wsapi take, trypass, peek or wsapi peek, in any order, the decision
+callback answering either way):
 the TSO invariant holds (buffer shapes, memory-side window `[lb, mem.top)` = prefix of `A`,
 `mem.base = lb (+1 while a thief's increment is visible)`), every value returned equals the element
 removed at the linearization point, nothing is returned twice, and inserted = deque + in flight +
 returned as multisets; the three fall-back branches of the model's ghost look-ups are unreachable;
 in a quiescent drained state memory `[base, top)` holds exactly the threads not yet resumed; a
 pending inserting `base` store (put, trypass) belongs to the lock holder just before its unlock,
-targets the slot below the logical base, and the buffer's view of that slot is the element it will
-insert when it drains; the overflow tests `base == 0` of put and trypass read the logical base. -/
+targets the slot below the logical base (as the issuing participant sees it: `lb + sh`, where
+`sh ≠ 0` only while the shift entry of put's own re-centring is still buffered in front), and the
+buffer's view of that slot is the element it will insert when it drains; the overflow tests
+`base == 0` of put and trypass read the logical base; `abort()` ("Runqueue overflow") is reached
+only when the deque holds `size` elements (`lb = 0`, `lt = size`), and the tests that guard it read
+the logical values; while the decision callback of wsapi take is asked the candidate is the head of
+the (non-empty) deque, and if it declines, then after the roll-back store, its drain and the unlock
+the deque, the slots, `top` and the returned / inserted lists are as before, `base` is the logical
+base again and the lock is free; clear's assertion `top == base` reads the logical values and holds
+exactly when the deque is empty. -/
+theorem C02_no_loss_no_dup_tso (n : Int) (s : St) (h : Reachable step (init FenceCfg.code n) s) :
+    Inv s ∧
+    (s.ins.Nodup → s.retd.Nodup ∧ (s.A ++ (s.flT.toList ++ (s.flO.toList ++ s.retd))).Perm s.ins) ∧
+    ((∀ t, s.opc = .po2 t → viewBase s.bufO s.base + 1 < t → s.A.getLast? ≠ none) ∧
+     (∀ t, s.opc = .po4 t → viewBase s.bufO s.base ≤ t → s.A.getLast? ≠ none) ∧
+     (∀ p b, s.tpc p = .tk2 b → b < viewTop (s.bufT p) s.top → s.A ≠ [])) ∧
+    (s.opc = .idle → (∀ p, s.tpc p = .idle) → s.bufO = [] →
+      s.flO = none ∧ s.flT = none ∧ s.lock = .free ∧ s.base = s.lb ∧ s.top = s.lt ∧
+      (∀ k : Nat, k < s.A.length → s.ptr (s.base + k) = s.A[k]?) ∧ (s.A.length : Int) = s.top - s.base) ∧
+    ((∀ v e, Sto.baseI v e ∈ s.bufO →
+        s.opc = .pt9 ∧ s.lock = .owner ∧ v = s.lb + s.sh - 1 ∧ viewPtr s.bufO s.ptr v = some e) ∧
+     (∀ p v e, Sto.baseI v e ∈ s.bufT p →
+        (∃ ok, s.tpc p = .tp4 ok) ∧ s.lock = .thief p ∧ v = s.lb - 1 ∧ viewPtr (s.bufT p) s.ptr v = some e)) ∧
+    ((∀ e, s.opc = .pt1 e → viewBase s.bufO s.base = s.lb) ∧
+     (∀ p e, s.tpc p = .tp1 e → viewBase (s.bufT p) s.base = s.lb)) ∧
+    ((s.opc = .stuck ∨ s.opc = .stuckL →
+        (s.A.length : Int) = s.size ∧ s.lb = 0 ∧ s.lt = s.size ∧ s.top = s.size ∧ s.base = 0 ∧
+        s.lock = .owner ∧ s.bufO = []) ∧
+     (∀ e, s.opc = .pub e → viewBase s.bufO s.base = s.lb ∧ s.lt = s.size) ∧
+     (∀ e, s.opc = .pt2 e → viewTop s.bufO s.top = s.lt ∧ s.lb = 0)) ∧
+    (∀ p b r, s.tpc p = .wkd b r →
+      r = s.A.head? ∧ s.A ≠ [] ∧
+      ∃ s1 s2 s3 s4, step s (.tDecide p false) = some s1 ∧ step s1 (.t p) = some s2 ∧
+        step s2 (.flushT p) = some s3 ∧ step s3 (.t p) = some s4 ∧
+        s4.A = s.A ∧ s4.retd = s.retd ∧ s4.ins = s.ins ∧ s4.ptr = s.ptr ∧ s4.top = s.top ∧
+        s4.base = s4.lb ∧ s4.lb = s.lb ∧ s4.lock = .free ∧ s4.tpc p = .idle ∧ s4.bufT p = []) ∧
+    (s.opc = .cl1 → (viewTop s.bufO s.top = viewBase s.bufO s.base ↔ s.A = []) ∧
+      viewTop s.bufO s.top = s.lt ∧ viewBase s.bufO s.base = s.lb) := by
+  have hi := reachable_inv n s h
+  obtain ⟨g1, g2, g3, _⟩ := ghost_branches_unreachable s hi
+  exact ⟨hi, no_loss_no_dup n s h, ⟨g1, g2, g3⟩, quiescent_mem s hi,
+    ⟨owner_baseI s hi, thief_baseI s hi⟩, base_tests_logical s hi,
+    ⟨stuck_only_when_full s hi, (overflow_tests_logical s hi).1, (overflow_tests_logical s hi).2⟩,
+    decline_spec s hi, cl1_assert_iff s hi⟩
+
+/-- **Both storage boundaries and the overflow guards under x86-TSO** (TSO analogue of
+`C02_abort_only_when_full` and of `C02_slot_accesses_in_bounds`; capacities `0 ≤ n`).  In every reachable state the bounds invariant `Bnd` holds: the logical window – and the
+owner's view of it while the shift entry of a re-centring is still buffered – lies inside
+`[0, size]`; the `myth_assert`s of the re-centring and insertion code hold (`offset < 0` in push,
+`offset > 0` in put, `t < size`, `b > 0`); every slot store of push / put / trypass / pop goes to an
+index inside `[0, size)`; push's test `base == 0` (at `top == size`) and put's test `top == size` (at
+`base == 0`) fire exactly when the deque holds `size` elements; the memory values of `base` and `top`
+stay inside `[0, ..)` / `(.., size]` at every moment – also in the middle of a re-centring, when
+they are a half-updated pair – so that every slot LOAD, including the one of the lock-free
+`myth_queue_peek` that may have read such a pair, is at an index inside `[0, size)`. -/
+theorem C02_bounds_tso (n : Int) (hn : 0 ≤ n) (s : St) (h : Reachable step (init FenceCfg.code n) s) :
+    Bnd s ∧
+    (0 ≤ s.lb ∧ s.lt ≤ s.size ∧ 0 ≤ s.lb + s.sh ∧ s.lt + s.sh ≤ s.size) ∧
+    ((∀ e off, s.opc = .pum e off → off < 0 ∧ 0 ≤ viewBase s.bufO s.base + off) ∧
+     (∀ e off, s.opc = .pt3 e off → 0 < off ∧ viewTop s.bufO s.top + off ≤ s.size)) ∧
+    ((∀ e t, s.opc = .pu1 e t → 0 ≤ t ∧ t < s.size) ∧
+     (∀ e b, s.opc = .pt7 e b → 0 ≤ b - 1 ∧ b - 1 < s.size) ∧
+     (∀ p e b, s.tpc p = .tp2 e b → 0 ≤ b - 1 ∧ b - 1 < s.size)) ∧
+    ((∀ e, s.opc = .pub e → (viewBase s.bufO s.base = 0 ↔ (s.A.length : Int) = s.size)) ∧
+     (∀ e, s.opc = .pt2 e → (viewTop s.bufO s.top = s.size ↔ (s.A.length : Int) = s.size))) ∧
+    (0 ≤ s.base ∧ s.top ≤ s.size) ∧
+    ((∀ p b, s.tpc p = .pk3 b → 0 ≤ b ∧ b < s.size) ∧
+     (∀ p b x, s.tpc p = .tk3 b x → 0 ≤ b ∧ b < s.size) ∧
+     (∀ p b, s.tpc p = .wk3 b → 0 ≤ b ∧ b < s.size) ∧
+     (∀ p b, s.tpc p = .vk3 b → 0 ≤ b ∧ b < s.size) ∧
+     (∀ t x, s.opc = .po3 t x → 0 ≤ t ∧ t < s.size) ∧
+     (∀ t x, s.opc = .po5 t x → 0 ≤ t ∧ t < s.size) ∧
+     (∀ t r, s.opc = .po5b t r → 0 ≤ t ∧ t < s.size)) := by
+  obtain ⟨hi, hb⟩ := reachable_bnd n hn s h
+  have hlen := hi.len
+  have h0 := hb.lb0
+  have h1 := hb.lts
+  have h2 := hb.lbv
+  have h3 := hb.ltv
+  refine ⟨hb, ⟨h0, h1, h2, h3⟩, ⟨?_, ?_⟩, ⟨?_, ?_, ?_⟩, abort_iff_full s hi hb, ⟨hb.base0, hb.tops⟩,
+    hb.pk3, ?_, ?_, ?_, ?_, hb.po5, hb.po5b⟩
+  rotate_left 5
+  · intro p b x hpc
+    have := hi.tk3 p b x hpc
+    have := hb.tk3 p b x hpc
+    omega
+  · intro p b hpc
+    obtain ⟨e1, _, e3, _⟩ := hi.wk3 p b hpc
+    have : 0 < s.A.length := List.length_pos_iff.2 e3
+    omega
+  · intro p b hpc
+    have := hi.vk3 p b hpc
+    have := hb.vk3 p b hpc
+    omega
+  · intro t x hpc
+    have := hi.po3 t x hpc
+    have := hb.po3 t x hpc
+    omega
+  · intro e off hpc
+    obtain ⟨hv, _⟩ := (owner_views s hi).2.2.2.1 e off hpc
+    have := hb.pum e off hpc
+    rw [hv]; exact this
+  · intro e off hpc
+    obtain ⟨_, hv⟩ := (owner_views s hi).2.2.2.2 e off hpc
+    have := hb.pt3 e off hpc
+    rw [hv]; exact ⟨this.1, this.2.1⟩
+  · intro e t hpc
+    have := hi.pu1 e t hpc
+    have := hb.pu1 e t hpc
+    omega
+  · intro e b hpc
+    have := (hi.pt7 e b hpc).1
+    have := hb.pt7 e b hpc
+    omega
+  · intro p e b hpc
+    have := hi.tp2 p e b hpc
+    have := hb.tp2 p e b hpc
+    omega
+
+/-- The former name of `C02_no_loss_no_dup_tso` (from the time the TSO machine covered only part of
+the operations); same statement, kept so that existing references keep working. -/
 theorem C02_no_loss_no_dup_tso_partial (n : Int) (s : St) (h : Reachable step (init FenceCfg.code n) s) :
     Inv s ∧
     (s.ins.Nodup → s.retd.Nodup ∧ (s.A ++ (s.flT.toList ++ (s.flO.toList ++ s.retd))).Perm s.ins) ∧
@@ -221,14 +369,25 @@ theorem C02_no_loss_no_dup_tso_partial (n : Int) (s : St) (h : Reachable step (i
       s.flO = none ∧ s.flT = none ∧ s.lock = .free ∧ s.base = s.lb ∧ s.top = s.lt ∧
       (∀ k : Nat, k < s.A.length → s.ptr (s.base + k) = s.A[k]?) ∧ (s.A.length : Int) = s.top - s.base) ∧
     ((∀ v e, Sto.baseI v e ∈ s.bufO →
-        s.opc = .pt9 ∧ s.lock = .owner ∧ v = s.lb - 1 ∧ viewPtr s.bufO s.ptr v = some e) ∧
+        s.opc = .pt9 ∧ s.lock = .owner ∧ v = s.lb + s.sh - 1 ∧ viewPtr s.bufO s.ptr v = some e) ∧
      (∀ p v e, Sto.baseI v e ∈ s.bufT p →
         (∃ ok, s.tpc p = .tp4 ok) ∧ s.lock = .thief p ∧ v = s.lb - 1 ∧ viewPtr (s.bufT p) s.ptr v = some e)) ∧
     ((∀ e, s.opc = .pt1 e → viewBase s.bufO s.base = s.lb) ∧
-     (∀ p e, s.tpc p = .tp1 e → viewBase (s.bufT p) s.base = s.lb)) := by
-  have hi := reachable_inv n s h
-  exact ⟨hi, no_loss_no_dup n s h, ghost_branches_unreachable s hi, quiescent_mem s hi,
-    ⟨owner_baseI s hi, thief_baseI s hi⟩, base_tests_logical s hi⟩
+     (∀ p e, s.tpc p = .tp1 e → viewBase (s.bufT p) s.base = s.lb)) ∧
+    ((s.opc = .stuck ∨ s.opc = .stuckL →
+        (s.A.length : Int) = s.size ∧ s.lb = 0 ∧ s.lt = s.size ∧ s.top = s.size ∧ s.base = 0 ∧
+        s.lock = .owner ∧ s.bufO = []) ∧
+     (∀ e, s.opc = .pub e → viewBase s.bufO s.base = s.lb ∧ s.lt = s.size) ∧
+     (∀ e, s.opc = .pt2 e → viewTop s.bufO s.top = s.lt ∧ s.lb = 0)) ∧
+    (∀ p b r, s.tpc p = .wkd b r →
+      r = s.A.head? ∧ s.A ≠ [] ∧
+      ∃ s1 s2 s3 s4, step s (.tDecide p false) = some s1 ∧ step s1 (.t p) = some s2 ∧
+        step s2 (.flushT p) = some s3 ∧ step s3 (.t p) = some s4 ∧
+        s4.A = s.A ∧ s4.retd = s.retd ∧ s4.ins = s.ins ∧ s4.ptr = s.ptr ∧ s4.top = s.top ∧
+        s4.base = s4.lb ∧ s4.lb = s.lb ∧ s4.lock = .free ∧ s4.tpc p = .idle ∧ s4.bufT p = []) ∧
+    (s.opc = .cl1 → (viewTop s.bufO s.top = viewBase s.bufO s.base ↔ s.A = []) ∧
+      viewTop s.bufO s.top = s.lt ∧ viewBase s.bufO s.base = s.lb) :=
+  C02_no_loss_no_dup_tso n s h
 
 /-! non-vacuity (TSO machine): the owner pushes 1, 2, 3 (capacity 8) with the stores of the last
     push still buffered, starts a pop (its `top` store buffered behind them), and a thief takes
@@ -238,7 +397,7 @@ def exTso : List Lbl :=
   [oPush 1, o, o, o, o, flushO, flushO, oPush 2, o, o, o, o, flushO, flushO, oPush 3, o, o, o, o,
    oPop, o, o,
    tTake 0, t 0, t 0, t 0, t 0, flushT 0, t 0, t 0, t 0, t 0,
-   flushO, flushO, flushO, o, o, o, o, o, o, flushO, o]
+   flushO, flushO, flushO, o, o, o, o, o, o, o, flushO, o]
 
 example : (runs step (init FenceCfg.code 8) exTso).map
     (fun s => (s.retd, s.A, s.top, s.base, s.bufO)) = some ([3, 1], [2], 6, 5, []) := by decide
@@ -276,17 +435,83 @@ open Lbl in
 /-- put on an empty deque, then pop returns the element through the locked slow path -/
 def exPutPop : List Lbl :=
   [oPut 5, o, o, o, o, o, flushO, flushO, o,
-   oPop, o, o, flushO, o, o, o, o, o, o, flushO, o]
+   oPop, o, o, flushO, o, o, o, o, o, o, o, o, flushO, flushO, o]
 
 example : (runs step (init FenceCfg.code 8) exPutPop).map
     (fun s => (s.retd, s.A, s.top, s.base, s.bufO)) = some ([5], [], 3, 3, []) := by decide
 example : (runs step (init FenceCfg.code 8) exPutPop).map (fun s => (s.opc, s.ins)) =
     some (.idle, [5]) := by decide
 
+/-! push re-centres (capacity 4): 1, 2 pushed (`top = 4 = size`), thief 0 took 1 (`base = 3`); push 3
+    locks, `offset = (-3-1)/2 = -2`, and issues the memmove, `top = 2`, `base = 1` – all three still
+    buffered at the unlock while thief 1 (quick check passed on the old `top`/`base`) spins at the
+    lock; they drain, the owner unlocks and finishes the push, thief 1 takes 2 from the moved window -/
 open Lbl in
-/-- a put at `base == 0` stops (re-centring is outside the model), holding the lock -/
-example : (runs step (init FenceCfg.code 1) [oPut 1, o, o]).map (fun s => (s.opc, s.lock)) =
-    some (.stuckL, .owner) := by decide
+def exRcPre : List Lbl :=
+  [oPush 1, o, o, o, o, flushO, flushO, oPush 2, o, o, o, o, flushO, flushO,
+   tTake 0, t 0, t 0, t 0, t 0, flushT 0, t 0, t 0, t 0, t 0,
+   oPush 3, o, o, o, o, o, o, o,
+   tTake 1, t 1, t 1, t 1]
+
+open Lbl in
+def exRc : List Lbl :=
+  exRcPre ++
+  [flushO, flushO, flushO, o, o, o,
+   t 1, t 1, flushT 1, t 1, t 1, t 1, t 1, flushO, flushO]
+
+example : (runs step (init FenceCfg.code 4) exRcPre).map
+    (fun s => (s.opc, s.tpc 1, s.bufO, s.lb, s.lt)) =
+    some (.pux 3 2, .tkl, [.shift 3 4 (-2), .top 2, .base 1], 3, 4) := by decide
+example : (runs step (init FenceCfg.code 4) exRcPre).map (fun s => (s.sh, s.A, s.top, s.base, s.lock)) =
+    some (-2, [2], 4, 3, .owner) := by decide
+example : (runs step (init FenceCfg.code 4) exRc).map
+    (fun s => (s.retd, s.A, s.top, s.base, s.bufO)) = some ([2, 1], [3], 3, 2, []) := by decide
+example : (runs step (init FenceCfg.code 4) exRc).map (fun s => (s.ptr 2, s.lb, s.lt, s.sh, s.lock)) =
+    some (some 3, 2, 3, 0, .free) := by decide
+
+open Lbl in
+/-- a lock-free quick check in the middle of that re-centring (shift and `top` drained, `base` not
+    yet) reads `top = 2`, `base = 3` and reports "empty" although the deque holds 2: a hint only -/
+def exRcHint : List Lbl := exRcPre ++ [flushO, flushO, tTake 2, t 2, t 2]
+
+example : (runs step (init FenceCfg.code 4) exRcHint).map
+    (fun s => (s.tpc 2, s.top, s.base, s.A, s.bufO)) = some (.idle, 2, 3, [2], [.base 1]) := by decide
+
+/-! put re-centres (capacity 4): 1 and 2 were put (`base = 0`, `top = 2`); put 3 finds `base == 0`,
+    `offset = (4-2+1)/2 = 1`; at its unlock the buffer holds all five stores – memmove, `top`, `base`,
+    the slot and the inserting `base` store; a fourth put re-centres again and fills the queue; the
+    fifth reaches `abort()` (`stuckL`) on the full deque -/
+open Lbl in
+def exPutRcPre : List Lbl :=
+  [oPut 1, o, o, o, o, o, flushO, flushO, o,
+   oPut 2, o, o, o, o, o, flushO, flushO, o,
+   oPut 3, o, o, o, o, o, o, o, o, o]
+
+example : (runs step (init FenceCfg.code 4) exPutRcPre).map (fun s => (s.opc, s.bufO, s.lb, s.sh)) =
+    some (.pt9, [.shift 0 2 1, .top 3, .base 1, .ptr 0 (some 3), .baseI 0 3], 0, 1) := by decide
+
+open Lbl in
+def exPutRc : List Lbl := exPutRcPre ++ [flushO, flushO, flushO, flushO, flushO, o]
+
+example : (runs step (init FenceCfg.code 4) exPutRc).map
+    (fun s => (s.A, s.top, s.base, s.bufO, s.opc)) = some ([3, 2, 1], 3, 0, [], .idle) := by decide
+example : (runs step (init FenceCfg.code 4) exPutRc).map (fun s => (s.ptr 0, s.ptr 1, s.ptr 2, s.lb, s.lt)) =
+    some (some 3, some 2, some 1, 0, 3) := by decide
+
+open Lbl in
+def exPutFull : List Lbl :=
+  exPutRc ++ [oPut 4, o, o, o, o, o, o, o, o, o, flushO, flushO, flushO, flushO, flushO, o,
+              oPut 5, o, o, o]
+
+example : (runs step (init FenceCfg.code 4) exPutFull).map (fun s => (s.opc, s.lock, s.A, s.top, s.base)) =
+    some (.stuckL, .owner, [4, 3, 2, 1], 4, 0) := by decide
+
+open Lbl in
+/-- push's `abort()`: capacity 2, one push fills `[1, 2)`, a put fills slot 0, the next push finds
+    `top == size` and `base == 0` -/
+example : (runs step (init FenceCfg.code 2)
+    [oPush 1, o, o, o, o, flushO, flushO, oPut 2, o, o, o, o, o, flushO, flushO, o, oPush 3, o, o, o, o]).map
+    (fun s => (s.opc, s.lock, s.A, s.top, s.base)) = some (.stuck, .owner, [2, 1], 2, 0) := by decide
 
 
 /-! trypass races the owner's lock-free pop: elements 1, 2, 3 pushed and drained (capacity 8);
@@ -332,7 +557,7 @@ def exPassSlow : List Lbl :=
    o, flushO, o, o,
    tPass 0 9, t 0, t 0, t 0, t 0, t 0,
    o, flushT 0, flushT 0, t 0,
-   o, o, o, o, flushO, o]
+   o, o, o, o, o, o, flushO, flushO, o]
 
 example : (runs step (init FenceCfg.code 8) exPassSlow).map
     (fun s => (s.retd, s.A, s.top, s.base, s.opc)) = some ([9, 1], [], 4, 4, .idle) := by decide
@@ -345,5 +570,68 @@ example : (runs step (init FenceCfg.code 8) [oPut 2, o, tPass 0 9, t 0]).map
 open Lbl in
 example : (runs step (init FenceCfg.code 1) [tPass 0 9, t 0, t 0]).map
     (fun s => (s.tpc 0, s.bufT 0, s.A)) = some (.tp4 false, [], []) := by decide
+
+
+/-! wsapi take with a declining callback (capacity 8, element 5 pushed and drained): participant 1
+    trylocks, increments `base` (drained by its fence), reads slot 4 and asks the callback; on a
+    decline the roll-back store is buffered, drains, and the unlock leaves everything as it was; on
+    an accept 5 is returned and the cache word is cleared -/
+open Lbl in
+def exDecidePre : List Lbl :=
+  [oPush 5, o, o, o, o, flushO, flushO,
+   tWTake 1, t 1, t 1, t 1, t 1, flushT 1, t 1, t 1, t 1]
+
+example : (runs step (init FenceCfg.code 8) exDecidePre).map (fun s => (s.tpc 1, s.A, s.tr, s.base, s.lock)) =
+    some (.wkd 4 (some 5), [5], true, 5, .thief 1) := by decide
+
+open Lbl in
+example : (runs step (init FenceCfg.code 8) (exDecidePre ++ [tDecide 1 false, t 1])).map
+    (fun s => (s.tpc 1, s.bufT 1, s.base, s.tr)) = some (.wk6, [.base 4], 5, true) := by decide
+open Lbl in
+example : (runs step (init FenceCfg.code 8) (exDecidePre ++ [tDecide 1 false, t 1, flushT 1, t 1])).map
+    (fun s => (s.tpc 1, s.A, s.retd, s.base, s.lock)) = some (.idle, [5], [], 4, .free) := by decide
+open Lbl in
+example : (runs step (init FenceCfg.code 8) (exDecidePre ++ [tDecide 1 true, t 1, flushT 1, t 1])).map
+    (fun s => (s.tpc 1, s.A, s.retd, s.base, s.lock)) = some (.idle, [], [5], 5, .free) := by decide
+
+/-! wsapi peek fills the cache word (stores of the cache word and of the roll-back buffered together),
+    the owner's slow-path pop of the last element clears it again -/
+open Lbl in
+def exWPeekPre : List Lbl :=
+  [oPush 5, o, o, o, o, flushO, flushO,
+   tWPeek 2, t 2, t 2, t 2, t 2, t 2, t 2, flushT 2, t 2, t 2, t 2, t 2, t 2]
+
+example : (runs step (init FenceCfg.code 8) exWPeekPre).map (fun s => (s.tpc 2, s.bufT 2, s.cache, s.A)) =
+    some (.vu, [.cache (some 5), .base 4], none, [5]) := by decide
+
+open Lbl in
+def exWPeek : List Lbl :=
+  exWPeekPre ++ [flushT 2, flushT 2, t 2, t 2]
+
+example : (runs step (init FenceCfg.code 8) exWPeek).map (fun s => (s.tpc 2, s.cache, s.A, s.base, s.lock)) =
+    some (.idle, some 5, [5], 4, .free) := by decide
+
+open Lbl in
+example : (runs step (init FenceCfg.code 8)
+    (exWPeek ++ [oPop, o, o, flushO, o, o, o, o, o, o, o, o, flushO, flushO, o])).map
+    (fun s => (s.opc, s.retd, s.cache, s.A, s.bufO)) = some (.idle, [5], none, [], []) := by decide
+
+
+/-! clear: 1 was pushed and taken (`top = base = 5`); clear re-centres the empty queue to `size/2`
+    – both stores buffered at its unlock –; on a non-empty queue its assertion fails -/
+open Lbl in
+def exClearPre : List Lbl :=
+  [oPush 1, o, o, o, o, flushO, flushO,
+   tTake 0, t 0, t 0, t 0, t 0, flushT 0, t 0, t 0, t 0, t 0,
+   oClear, o, o, o]
+
+example : (runs step (init FenceCfg.code 8) exClearPre).map
+    (fun s => (s.opc, s.bufO, s.top, s.base, s.lb)) = some (.cl3, [.base 4, .top 4], 5, 5, 4) := by decide
+open Lbl in
+example : (runs step (init FenceCfg.code 8) (exClearPre ++ [flushO, flushO, o])).map
+    (fun s => (s.opc, s.top, s.base, s.lock, s.retd)) = some (.idle, 4, 4, .free, [1]) := by decide
+open Lbl in
+example : (runs step (init FenceCfg.code 8) [oPush 1, o, o, o, o, flushO, flushO, oClear, o, o]).map
+    (fun s => (s.opc, s.lock, s.A)) = some (.assertFail, .owner, [1]) := by decide
 
 end MythVerif.WsqTso
